@@ -528,6 +528,31 @@ def r2(R):
     R.floor("C16-R2", "Ok returns of the top-level parsers", n, 4)
 
 
+def _is_prefix_slice(b, op, depth=0):
+    """the operand is a piece cut off the front of a longer text by length (`s.get(..n)`, `&s[..n]`, `split_at(n).0`): not a complete token"""
+    if op is None or F.op_place(op) is None or depth > 6:
+        return False
+    pl = F.op_place(op)
+    ds = [d for d in b.defs().get(pl["l"], []) if d[0] in ("assign", "call")]
+    if b.is_closure and pl["l"] >= 2 and pl["l"] <= b.nargs:
+        # a closure parameter: fed by the adaptor it is handed to (`get(..n).is_some_and(|head| ..)`)
+        parent = b.prog_parent if hasattr(b, "prog_parent") else None
+        return True if parent is None else False
+    for d in ds:
+        if d[0] == "call":
+            if d[2].name() in ("get", "index", "split_at", "get_unchecked", "split_at_checked"):
+                return True
+            if d[2].name() in ("deref", "as_str", "borrow", "as_ref", "unwrap", "expect", "unwrap_or", "unwrap_or_default", "branch") and d[2].args:
+                if _is_prefix_slice(b, d[2].args[0], depth + 1):
+                    return True
+        else:
+            rv = d[3]
+            src = F.op_place(rv["op"]) if rv["rv"] in ("use", "cast") else (rv["pl"] if rv["rv"] in ("ref",) else None)
+            if src is not None and _is_prefix_slice(b, {"k": "copy", "pl": {"l": src["l"], "p": [], "t": ""}}, depth + 1):
+                return True
+    return False
+
+
 def r3(R, bodies):
     prog = R.prog
     n = 0
@@ -543,6 +568,11 @@ def r3(R, bodies):
             if cn in ("multispace0", "multispace1", "space0", "space1") and "nom::" in pk:
                 R.ob("C16-R3", "ws:%s:%s" % (b.short, cn), "%s skips blanks through sparql_skip_ws (comment-aware), not nom's %s" % (b.short, cn),
                      False, where=b.where(c.ln), detail="a comment between tokens would be a syntax error here")
+            if cn in ("eq_ignore_ascii_case", "to_ascii_uppercase", "to_ascii_lowercase", "to_uppercase", "to_lowercase", "make_ascii_uppercase", "make_ascii_lowercase") \
+                    and nm not in ("sparql_keyword", "sparql_starts_keyword", "sparql_keyword_ci", "sparql_tag_no_case") and _is_prefix_slice(b, c.args[0] if c.args else None):
+                R.ob("C16-R3", "kwcase:%s:%s" % (b.short, cn), "%s compares keywords through the keyword helper (which also checks the token boundary), not with a home-made `%s`"
+                     % (b.short, cn), False, where=b.where(c.ln), detail="a prefix test without a token boundary takes `values:max` for the keyword VALUES: a valid "
+                     "statement is cut there and the query is rejected (or parsed differently)")
             if cn == "tag" and "nom::" in pk:
                 lits = [const_text(a) for a in c.args]
                 if any(l and any(ch.isalpha() for ch in l) for l in lits):
